@@ -113,6 +113,12 @@ namespace zoo
          using c_star = seq< star< R >, any >;
          ZRUN( "seq<star<R>,any>", c_star )
       }
+      // actions disabled but rewinding required: rules with a separate code path for apply_mode::nothing
+      using c_dsor = sor< disable< R >, any >;
+      e.runs.emplace_back( "sor<disable<R>,any>/no-action/eager", &run< c_dsor, p::nothing, EA, Eol, RQ, St... > );
+      e.runs.emplace_back( "sor<disable<R>,any>/apply/lazy", &run< c_dsor, fam< R, void_apply >::template type, LA, Eol, RQ, St... > );
+      using c_dopt = seq< opt< disable< R > >, any >;
+      e.runs.emplace_back( "seq<opt<disable<R>>,any>/apply0/eager", &run< c_dopt, fam< R, void_apply0 >::template type, EA, Eol, OP, St... > );
 #undef ZRUN
       entries().push_back( std::move( e ) );
    }
